@@ -16,6 +16,7 @@ structure RAux where
   crashed : Bool := false
   lastTouch : Nat := 0        -- last instant at which this instance's counted set or configuration moved
   lastGive : Option Nat := none
+  preStarted : Bool := false  -- v2: the loop's first provisioning was logged before Start()'s own (later) log line
 deriving Inhabited
 
 structure RSt where
@@ -102,6 +103,8 @@ def replayLease (sc : LScn) (entries : List String) : RRes := Id.run do
             aux := aux.modify i fun u => { u with started := true }
         else
           if res == "ok" then
+            if (ax i).preStarted then aux := aux.modify i fun u => { u with preStarted := false, started := true }
+            else
             match lstep n s (.start i true) with
             | some s' => s := s'; aux := aux.modify i fun u => { u with started := true }
             | none => return bad "Start succeeded, the model does not accept a (second) start"
@@ -127,6 +130,12 @@ def replayLease (sc : LScn) (entries : List String) : RRes := Id.run do
           if (s'.inst i).phase != .started then return bad "the model refuses this configuration (more than 500 partitions), the code provisions it"
           s := s'
         | none => return bad "model cannot start"
+      -- v2: Start() starts the loop and returns; the harness logs `act:S` after the return, the loop goroutine may
+      -- log its first provisioning before that (log lines are written outside the code's critical sections)
+      if sc.gen == 2 && (s.inst i).phase == .uninit && !(ax i).preStarted then
+        match lstep n s (.start i true) with
+        | some s' => s := s'; aux := aux.modify i fun u => { u with preStarted := true }
+        | none => pure ()
       match lstep n s (.provision i) with
       | some s' =>
         if (s'.inst i).parts != n3 then return bad s!"partition count: model {(s'.inst i).parts}"
